@@ -1,8 +1,8 @@
 SPECIFICATION Spec
 CONSTANTS
   GenFiles = {1, 3, 4}
-  OtherFiles = {}
-  Modes = {292, 420}
+  OtherFiles = {5}
+  Modes = {292, 420, 384}
   Variants = {0, 2}
   ChmodGate = TRUE
   CopyGate = TRUE
